@@ -1,6 +1,7 @@
 package main
 
 import (
+	"bytes"
 	"encoding/json"
 	"fmt"
 	"os"
@@ -266,6 +267,7 @@ type MTask struct {
 	Progs    []MProg `json:"progs"`
 	LiveCopy int     `json:"live_copy,omitempty"` // before program #LiveCopy (1-based) the task takes a new Copy() of the template and continues on it
 	Chan     bool    `json:"chan,omitempty"`      // the runtime has a (silent) Interrupt channel, so the polling paths run
+	NoSeed   bool    `json:"no_seed,omitempty"`   // the runtime keeps whatever random source it was created/copied with; its programs never record a random value
 }
 
 type MultiCase struct {
@@ -280,6 +282,8 @@ type MultiCase struct {
 	Tasks    []MTask  `json:"tasks"`
 	Procs    int      `json:"gomaxprocs"`
 	TplChan  bool     `json:"template_chan,omitempty"` // the template has an Interrupt channel when it is copied
+	TplNoSeed bool    `json:"template_no_seed,omitempty"` // the template uses the default random source and calls Math.random() before it is copied
+	ByteSrc  bool     `json:"byte_src,omitempty"`      // shared Scripts/Programs are compiled from a []byte the caller then reuses
 	// Batch, when present, records the process history in which the violation
 	// was observed (race detection can depend on what the process executed
 	// before); replay falls back to re-running that batch prefix.
@@ -297,6 +301,7 @@ var TG={get x(){return this._x},set x(v){this._x=v},_x:1};
 function TF(a,b){delete arguments[0];arguments[1]='w';return String(a)+b}
 var TR=/t(\d)/g, TD=new Date(86400000), TE=new RangeError('tpl');
 var TC=(function(){var n=0;return function(){return ++n}})();
+var TS=new String('é€\ud834\udd1exyz'), TS2=new String('plain');
 function __spin(){}
 `
 
@@ -412,7 +417,9 @@ func newTemplate(c *MultiCase) *otto.Otto {
 	vm := otto.New()
 	vm.SetStackDepthLimit(48)
 	installMulti(vm)
-	setRandom(vm, c.Seed^0x7e)
+	if !c.TplNoSeed {
+		setRandom(vm, c.Seed^0x7e)
+	}
 	t := &mtask{id: -1}
 	soloTask = t
 	if c.TplChan {
@@ -420,6 +427,9 @@ func newTemplate(c *MultiCase) *otto.Otto {
 	}
 	if _, err := vm.Run(preludeJS + multiPreludeJS); err != nil {
 		fatalf("harness: prelude: %v", err)
+	}
+	if c.TplNoSeed {
+		vm.Run("Math.random();")
 	}
 	if c.Template != "" {
 		func() {
@@ -461,11 +471,23 @@ func makeRuntime(c *MultiCase, tk *MTask, id int, tpl *otto.Otto) *otto.Otto {
 	default:
 		fatalf("unknown origin %q", tk.Origin)
 	}
-	setRandom(vm, c.Seed+uint64(id)*977)
+	if !keepsDefaultRandom(c, tk) {
+		setRandom(vm, c.Seed+uint64(id)*977)
+	}
 	if tk.Chan {
 		vm.Interrupt = make(chan func(), 1)
 	}
 	return vm
+}
+
+// keepsDefaultRandom: a runtime may keep the random source it was created or
+// copied with only if that is otto's own default - a copy of a template that
+// carries the harness's seeded closure would share harness state.
+func keepsDefaultRandom(c *MultiCase, tk *MTask) bool {
+	if !tk.NoSeed {
+		return false
+	}
+	return c.TplNoSeed || tk.Origin == "fresh" || tk.Origin == "livefresh"
 }
 
 // makeRuntimeLive is makeRuntime("fresh") for use inside a running task: the
@@ -480,7 +502,9 @@ func makeRuntimeLive(c *MultiCase, tk *MTask, t *mtask) *otto.Otto {
 	if err := vm.Set("gs", &bridged{Name: "g", Count: t.id, Tags: []string{"x", "y"}, M: map[string]int{"k": t.id}}); err != nil {
 		t.rec("SET-ERR " + err.Error())
 	}
-	setRandom(vm, c.Seed+uint64(t.id)*977)
+	if !keepsDefaultRandom(c, tk) {
+		setRandom(vm, c.Seed+uint64(t.id)*977)
+	}
 	if tk.Chan {
 		vm.Interrupt = make(chan func(), 1)
 	}
@@ -554,7 +578,9 @@ func runTask(c *MultiCase, tk *MTask, t *mtask, tpl *otto.Otto, shared []sharedS
 			// copy_live: a new copy of the (idle) template taken while other
 			// runtimes are mid-program
 			t.vm = tpl.Copy()
-			setRandom(t.vm, c.Seed+uint64(t.id)*977+uint64(i))
+			if !keepsDefaultRandom(c, tk) {
+				setRandom(t.vm, c.Seed+uint64(t.id)*977+uint64(i))
+			}
 			if tk.Chan {
 				t.vm.Interrupt = make(chan func(), 1)
 			}
@@ -774,16 +800,30 @@ func execMulti(c *MultiCase, st *Stats) *Violation {
 	shared := make([]sharedSrc, len(c.Scripts))
 	hashes := make([]uint64, len(c.Scripts))
 	for i, src := range c.Scripts {
-		s, err := tpl.Compile("", src)
+		var in1, in2 interface{} = src, src
+		var b1, b2 []byte
+		if c.ByteSrc {
+			b1, b2 = []byte(src), []byte(src)
+			in1, in2 = b1, bytes.NewBuffer(b2)
+		}
+		s, err := tpl.Compile("", in1)
 		if err != nil {
 			return nil // generator produced unparsable text: cannot happen; treat as nothing to check
 		}
-		p, err := parser.ParseFile(nil, "", src, 0)
+		p, err := parser.ParseFile(nil, "", in2, 0)
 		if err != nil {
 			return nil
 		}
 		shared[i] = sharedSrc{script: s, program: p}
 		hashes[i] = deepHash(s) ^ deepHash(p)
+		// the caller reuses its buffers for the next file: a compiled Script or
+		// parsed Program must not depend on them any more
+		for k := range b1 {
+			b1[k] = '#'
+		}
+		for k := range b2 {
+			b2[k] = '#'
+		}
 	}
 	n := len(c.Tasks)
 	tasks := make([]*mtask, n)
@@ -1019,8 +1059,27 @@ var jsFragments = []string{
 	"rec(TF(1,2)+TF('a','b'))",
 	"rec(TC()+','+TC())",
 	"TR.lastIndex=0;rec(TR.exec('t1t2')+':'+TR.lastIndex);TD.setTime(TD.getTime()+1);rec(TD.getTime());TE.message+='!';rec(String(TE))",
+	"rec(TS[1]+TS[2]+TS[3]+TS.length+TS2[0]+TS.charAt(0))",
+	"Math.random();Math.random();",
 	"if(typeof gs!=='undefined'){rec(gs.Name+gs.Count+gs.Sum(2,3)+gs.Tags.length+gs.M.k);gs.Count=gs.Count+1;rec(gs.Count)}",
 	"if(typeof gs!=='undefined'){gs.Tags[0]='z';gs.M.q=5;rec(gs.Tags.join()+Object.keys(gs.M).sort().join()+JSON.stringify(gs))}",
+}
+
+// genQuietProg: a program that never records a random value (for runtimes that
+// keep the default random source)
+func genQuietProg(t *rapid.T) MProg {
+	var b strings.Builder
+	b.WriteString("var t;\n")
+	for n := rapid.IntRange(1, 4).Draw(t, "nq"); n > 0; n-- {
+		if rapid.Bool().Draw(t, "qtx") {
+			b.WriteString(txText(rapid.IntRange(0, nTxKinds-1).Draw(t, "tx")))
+		} else {
+			b.WriteString("Math.random();rec(TB(3,4));delete T0.c;rec(Object.keys(T0).join());")
+		}
+		b.WriteString("\n")
+	}
+	b.WriteString("Math.random();S.n;\n")
+	return MProg{Src: b.String(), Route: "text"}
 }
 
 func genMultiProg(t *rapid.T, nScripts int) MProg {
@@ -1055,6 +1114,8 @@ func (multiEngine) Gen(t *rapid.T, tier string) interface{} {
 	c.PDen = []int{1, 2, 4, 16, 64, 256}[rapid.IntRange(0, 5).Draw(t, "pden")]
 	c.Procs = []int{1, 1, 2, 4}[rapid.IntRange(0, 3).Draw(t, "procs")]
 	c.TplChan = rapid.IntRange(0, 3).Draw(t, "tplchan") == 3
+	c.TplNoSeed = rapid.IntRange(0, 3).Draw(t, "tplnoseed") == 3
+	c.ByteSrc = rapid.IntRange(0, 2).Draw(t, "bytesrc") == 2
 	tp := genMultiProg(t, 0)
 	c.Template = tp.Src
 	ns := rapid.IntRange(1, 3).Draw(t, "nscripts")
@@ -1079,6 +1140,14 @@ func (multiEngine) Gen(t *rapid.T, tier string) interface{} {
 			default:
 				// the same source text as a shared script, submitted as text: route independence
 				tk.Progs = append(tk.Progs, MProg{Route: "text", Src: c.Scripts[rapid.IntRange(0, ns-1).Draw(t, "shared")]})
+			}
+		}
+		if rapid.IntRange(0, 4).Draw(t, "noseed") == 4 {
+			// quiet task: default random source, programs that never record a random value
+			tk.NoSeed = true
+			tk.Progs = nil
+			for j := 0; j < np; j++ {
+				tk.Progs = append(tk.Progs, genQuietProg(t))
 			}
 		}
 		tk.Chan = rapid.IntRange(0, 3).Draw(t, "chan") == 3
